@@ -121,6 +121,7 @@ class StubSftpServer:
          read_error_at  int|None   n-th READ request fails with FX_FAILURE
          write_error_at int|None   n-th WRITE request fails
          eof_at      int|None  the source pretends to end at this offset
+         no_size     bool      STAT/LSTAT/FSTAT replies leave the size out
                             although stat announced the full size
          bad_reply   None | ('unknown_id'|'dup_id'|'wrong_type', n)  applied
                             to the n-th request
@@ -417,6 +418,10 @@ class StubSftpServer:
                 if pol.get('announce_size') is not None:
                     size = pol['announce_size']
 
+                if pol.get('no_size'):
+                    # the size field of ATTRS is optional
+                    size = None
+
                 return bytes([ATTRS]) + u32(rid) + attrs_v3(
                     size=size, perm=0o100644, uid=1, gid=1, atime=1, mtime=1)
 
@@ -436,6 +441,9 @@ class StubSftpServer:
 
             if pol.get('announce_size') is not None:
                 size = pol['announce_size']
+
+            if pol.get('no_size'):
+                size = None
 
             return bytes([ATTRS]) + u32(rid) + attrs_v3(
                 size=size, perm=0o100644, uid=1, gid=1, atime=1, mtime=1)
